@@ -38,6 +38,10 @@ type plan struct {
 	execSmall, execLarge   []config
 	otherSmall, otherLarge []config
 	apq                    []config
+	// histories: configurations per history; whether documents above fullOps also get the
+	// cross-carrier and sibling shapes (they always get "the same request twice")
+	hist               []config
+	histAllShapesLarge bool
 }
 
 func product(accepts, rhs, orders []string) []config {
@@ -57,7 +61,8 @@ func makePlan(tier string) plan {
 	singles := product(acceptSingles, rhAlphabet, orderAlphabet)
 	if tier == "thorough" {
 		// the complete product for every document and every carrier
-		return plan{maxOps: 3, fullOps: 3, execSmall: all, execLarge: all, otherSmall: all, otherLarge: all, apq: singles}
+		return plan{maxOps: 3, fullOps: 3, execSmall: all, execLarge: all, otherSmall: all, otherLarge: all, apq: singles,
+			hist: product(acceptSingles[:4], []string{"nil", "ct-gr"}, orderAlphabet), histAllShapesLarge: true}
 	}
 	// quick: for executing carriers on documents with up to 2 operations every Accept value x every
 	// ResponseHeaders setting in the default order plus the single-value Accept headers in the
@@ -68,7 +73,8 @@ func makePlan(tier string) plan {
 		execLarge:  product(acceptSingles[:4], rhAlphabet, []string{"default"}),
 		otherSmall: singles,
 		otherLarge: product([]string{"", mtGR}, []string{"nil", "custom"}, []string{"default"}),
-		apq:        product(acceptSingles[:4], []string{"nil", "ct-gr"}, []string{"default"})}
+		apq:        product(acceptSingles[:4], []string{"nil", "ct-gr"}, []string{"default"}),
+		hist:       product([]string{"", mtGR}, []string{"nil"}, []string{"default"})}
 }
 
 type hit struct {
@@ -109,13 +115,15 @@ func (h *hit) signature(group string) string {
 
 type tally struct {
 	evals, nontrivial int
+	responses         int // judged responses (a history has several)
 	byOutcome         map[string]int
 	byCarrier         map[string]int
+	byHistory         map[string]int
 	hits              map[string]*hit // by group
 }
 
 func newTally() *tally {
-	return &tally{byOutcome: map[string]int{}, byCarrier: map[string]int{}, hits: map[string]*hit{}}
+	return &tally{byOutcome: map[string]int{}, byCarrier: map[string]int{}, byHistory: map[string]int{}, hits: map[string]*hit{}}
 }
 
 func (t *tally) record(docIdx, k int, cs Case, v Violation) {
@@ -131,6 +139,10 @@ func (t *tally) record(docIdx, k int, cs Case, v Violation) {
 func (t *tally) merge(o *tally) {
 	t.evals += o.evals
 	t.nontrivial += o.nontrivial
+	t.responses += o.responses
+	for k, v := range o.byHistory {
+		t.byHistory[k] += v
+	}
 	for k, v := range o.byOutcome {
 		t.byOutcome[k] += v
 	}
@@ -183,6 +195,83 @@ func casesFor(d DocSpec, p plan, f func(Case)) {
 	}
 }
 
+// histCarriers are the carriers histories are built from (the urlencoded body forms other than
+// JSON are left to the single-request product).
+var histCarriers = []string{"GET", "POST", "FORM-json", "GRAPHQL", "MULTIPART"}
+
+// historiesFor enumerates the histories whose LAST request carries document d, in a fixed order:
+//
+//	twice                       the same request twice
+//	other-carrier-first         the same document and operationName over another carrier, then this one
+//	valid-then-invalid-sibling  the fault-free document with the same operations, then d (d faulty)
+//	invalid-sibling-then-valid  (enumerated at the faulty d) d first, then its fault-free sibling
+//
+// every history runs on a fresh default-configuration server (query cache + APQ).
+func historiesFor(d DocSpec, p plan, f func(Case)) {
+	large := len(d.Ops) > p.fullOps
+	allShapes := !large || p.histAllShapesLarge
+	base := DocSpec{Ops: d.Ops}
+	for _, on := range opNameChoices(d) {
+		for _, c2 := range histCarriers {
+			if !carrierByName(c2).OpName && on.Has {
+				continue
+			}
+			for _, c1 := range histCarriers {
+				if !carrierByName(c1).OpName && on.Has {
+					continue
+				}
+				shape := "twice"
+				if c1 != c2 {
+					shape = "other-carrier-first"
+					if !allShapes {
+						continue
+					}
+				}
+				for _, g := range p.hist {
+					f(Case{Doc: d, OpName: on, Carrier: c2, Accept: g.accept, RH: g.rh, Order: g.order, History: shape,
+						Before: []Step{{Doc: d, OpName: on, Carrier: c1, Accept: g.accept}}})
+				}
+			}
+			if d.Fault == "" || !allShapes {
+				continue
+			}
+			for _, g := range p.hist {
+				f(Case{Doc: d, OpName: on, Carrier: c2, Accept: g.accept, RH: g.rh, Order: g.order, History: "valid-then-invalid-sibling",
+					Before: []Step{{Doc: base, OpName: on, Carrier: c2, Accept: g.accept}}})
+				f(Case{Doc: base, OpName: on, Carrier: c2, Accept: g.accept, RH: g.rh, Order: g.order, History: "invalid-sibling-then-valid",
+					Before: []Step{{Doc: d, OpName: on, Carrier: c2, Accept: g.accept}}})
+			}
+		}
+	}
+}
+
+// judge runs one case and compares every response of it with the reference. Violations of a
+// history carry the shape and the position of the offending response in their group.
+func judge(r *rig, cs Case, bc bodyCache, t *tally, docIdx, k int) {
+	res := r.run(cs)
+	t.evals++
+	t.responses += len(res)
+	if cs.History != "" {
+		t.byHistory[cs.History]++
+	}
+	for i, so := range res {
+		e := expect(so.Case)
+		if i == len(res)-1 {
+			t.byOutcome[e.Outcome]++
+			t.byCarrier[cs.Carrier]++
+			if e.Outcome == "execute" || e.Outcome == "refuse-get" || e.Outcome == "refuse-doc" {
+				t.nontrivial++
+			}
+		}
+		for _, v := range check(so.Case, e, so.Obs, bc) {
+			if cs.History != "" {
+				v.Group = fmt.Sprintf("history=%s|response=%d/%d|%s", cs.History, i+1, len(res), v.Group)
+			}
+			t.record(docIdx, k, cs, v)
+		}
+	}
+}
+
 func main() {
 	if p := common.ReplayArg(); p != "" {
 		replay(p)
@@ -227,17 +316,11 @@ func main() {
 				k := 0
 				casesFor(docs[i], p, func(cs Case) {
 					k++
-					e := expect(cs)
-					o, _ := r.run(cs)
-					t.evals++
-					t.byOutcome[e.Outcome]++
-					t.byCarrier[cs.Carrier]++
-					if e.Outcome == "execute" || e.Outcome == "refuse-get" || e.Outcome == "refuse-doc" {
-						t.nontrivial++
-					}
-					for _, v := range check(cs, e, o, bc) {
-						t.record(i, k, cs, v)
-					}
+					judge(r, cs, bc, t, i, k)
+				})
+				historiesFor(docs[i], p, func(cs Case) {
+					k++
+					judge(r, cs, bc, t, i, k)
 				})
 				atomic.AddInt64(&done, 1)
 			}
@@ -265,21 +348,18 @@ func main() {
 	for _, s := range sigs {
 		h := bySig[s]
 		sigCounts[s] = h.count
-		o, w := r.run(h.c)
-		c.Report(s, h.what, map[string]any{"case": h.c, "document": h.c.Doc.Text(), "request": w,
-			"expected": expect(h.c), "observed": o, "cases_with_this_signature": h.count})
+		c.Report(s, h.what, map[string]any{"case": h.c, "responses": describe(r, h.c), "cases_with_this_signature": h.count})
 	}
 
 	for _, cs := range sampleCases() {
-		o, w := r.run(cs)
-		o.Body = clip(o.Body)
-		c.Sample(map[string]any{"case": cs, "document": cs.Doc.Text(), "request": w, "expected": expect(cs), "observed": o})
+		c.Sample(map[string]any{"case": cs, "responses": describe(r, cs)})
 	}
 
 	c.Cov["evaluations"] = total.evals
 	c.Cov["distinct_nontrivial"] = total.nontrivial
-	c.Cov["rule"] = "cases are enumerated without repetition as (document, operationName, carrier, Accept, ResponseHeaders, registration order); " +
-		"each is one request through handler.Server.ServeHTTP. Non-trivial = the reference expects an execution (non-empty resolver log and data compared, status 200), " +
+	c.Cov["rule"] = "cases are enumerated without repetition as (document, operationName, carrier, Accept, ResponseHeaders, registration order) single requests on a cache-less server, " +
+		"plus histories (one earlier request, then the case's request) on a fresh server with NewDefaultServer's query cache and APQ; every request goes through handler.Server.ServeHTTP and " +
+		"every response of a history is judged (responses_judged). A case counts once, by its last request. Non-trivial = the reference expects an execution (non-empty resolver log and data compared, status 200), " +
 		"a GET refusal of a selected mutation/subscription (empty resolver log, 4xx), or a parse/validation refusal (empty resolver log, media-type specific status); " +
 		"trivial = requests naming no operation, broken query strings, unregistered APQ hashes and HEAD/OPTIONS/PUT, where only 'no resolver ran', body shape and Content-Type are compared"
 	c.Cov["exhaustive"] = exhaustive
@@ -287,6 +367,8 @@ func main() {
 	c.Cov["documents_completed"] = int(done)
 	c.Cov["by_outcome"] = total.byOutcome
 	c.Cov["by_carrier"] = total.byCarrier
+	c.Cov["responses_judged"] = total.responses
+	c.Cov["histories_by_shape"] = total.byHistory
 	c.Cov["disagreeing_cases_by_signature"] = sigCounts
 	c.Cov["bounds"] = map[string]any{
 		"operations_per_document": fmt.Sprintf("1..%d", p.maxOps),
@@ -304,7 +386,11 @@ func main() {
 			fmt.Sprintf("non-executing carriers, documents with <=%d operations", p.fullOps): len(p.otherSmall),
 			fmt.Sprintf("non-executing carriers, documents with >%d operations", p.fullOps):  len(p.otherLarge),
 			"APQ carriers": len(p.apq),
+			"histories":    len(p.hist),
 		},
+		"history_shapes":   []string{"twice", "other-carrier-first", "valid-then-invalid-sibling", "invalid-sibling-then-valid"},
+		"history_carriers": histCarriers,
+		"history_shapes_for_documents_above_full_product": map[bool]string{true: "all", false: "twice only"}[p.histAllShapesLarge],
 	}
 	c.Assume = []string{
 		"handler.Server is driven through ServeHTTP with httptest recorders; no sockets, no net/http server (so net/http's own Content-Type sniffing and HEAD body stripping are not in the loop)",
@@ -315,6 +401,17 @@ func main() {
 	}
 	pprof.StopCPUProfile()
 	c.Finish()
+}
+
+// describe re-runs a case and writes out every judged response next to what the reference expects.
+func describe(r *rig, cs Case) []map[string]any {
+	var out []map[string]any
+	for _, so := range r.run(cs) {
+		so.Obs.Body = clip(so.Obs.Body)
+		out = append(out, map[string]any{"document": so.Case.Doc.Text(), "request": so.Wire, "accept": so.Case.Accept,
+			"expected": expect(so.Case), "observed": so.Obs})
+	}
+	return out
 }
 
 func carrierNames() []string {
@@ -333,6 +430,8 @@ func sampleCases() []Case {
 		{Doc: two, OpName: OpNameChoice{true, "A"}, Carrier: "GET-apq", Accept: "*/*", RH: "custom", Order: "default"},
 		{Doc: DocSpec{Ops: []OpSpec{{"query", "short"}}, Fault: "parse"}, Carrier: "GET", Accept: "text/html, application/json", RH: "nil", Order: "default"},
 		{Doc: DocSpec{Ops: []OpSpec{{"subscription", "anon"}}}, Carrier: "GET", Accept: mtJSON, RH: "ct-gr", Order: "default"},
+		{Doc: DocSpec{Ops: []OpSpec{{"mutation", "named"}}, Fault: "unknown-field"}, Carrier: "POST", Accept: "", RH: "nil", Order: "default",
+			History: "other-carrier-first", Before: []Step{{Doc: DocSpec{Ops: []OpSpec{{"mutation", "named"}}, Fault: "unknown-field"}, Carrier: "GET"}}},
 		{Doc: DocSpec{Ops: []OpSpec{{"query", "named"}, {"query", "named"}, {"mutation", "named"}}, Fault: "unknown-field", FaultAt: 2},
 			OpName: OpNameChoice{true, "A"}, Carrier: "MULTIPART", Accept: mtGR, RH: "nil", Order: "default"},
 	}
@@ -354,24 +453,28 @@ func replay(path string) {
 	}
 	cs := f.Replay.Case
 	r := newRig()
-	o, w := r.run(cs)
-	e := expect(cs)
 	show := func(k string, v any) {
 		j, _ := json.MarshalIndent(v, "  ", " ")
 		fmt.Printf("%s:\n  %s\n", k, j)
 	}
-	fmt.Printf("document: %s\n", cs.Doc.Text())
 	show("case", cs)
-	show("request", w)
-	show("reference expects", e)
-	show("observed", o)
-	vs := check(cs, e, o, bodyCache{})
-	if len(vs) == 0 {
+	res := r.run(cs)
+	bad := false
+	for i, so := range res {
+		e := expect(so.Case)
+		fmt.Printf("---- response %d/%d ----\ndocument: %s\n", i+1, len(res), so.Case.Doc.Text())
+		show("request", so.Wire)
+		fmt.Printf("accept: %q\n", so.Case.Accept)
+		show("reference expects", e)
+		show("observed", so.Obs)
+		for _, v := range check(so.Case, e, so.Obs, bodyCache{}) {
+			bad = true
+			fmt.Printf("oracle: %s %v\n  %s\n", v.Group, v.Facets, v.What)
+		}
+	}
+	if !bad {
 		fmt.Println("oracle: no disagreement")
 		os.Exit(0)
-	}
-	for _, v := range vs {
-		fmt.Printf("oracle: %s %v\n  %s\n", v.Group, v.Facets, v.What)
 	}
 	os.Exit(1)
 }
